@@ -271,7 +271,7 @@ func init() {
 	}
 }
 
-func intFits(k int, n *big.Int) bool {
+func repIntFits(k int, n *big.Int) bool {
 	return n.Cmp(intRanges[k][0]) >= 0 && n.Cmp(intRanges[k][1]) <= 0
 }
 
@@ -285,7 +285,7 @@ func widthsHolding(vals []*V) []int {
 	for k := 0; k < 10; k++ {
 		ok := true
 		for _, v := range vals {
-			if !intFits(k, v.I) {
+			if !repIntFits(k, v.I) {
 				ok = false
 			}
 		}
